@@ -150,6 +150,11 @@ func GenDispatchProgram(t *rapid.T, prof DispatchProfile) *Program {
 		nt := rapid.IntRange(1, 3).Draw(t, "targets")
 		for j := 0; j < nt; j++ {
 			d := DeliverSpec{URL: fmt.Sprintf("https://t%d.example/hook%d", j, i)}
+			if prof.Sign && rapid.IntRange(0, 2).Draw(t, "urlshape?") == 0 {
+				// paths with escaped characters and query strings: the signed
+				// string carries the escaped path as the target receives it
+				d.URL += rapid.SampledFrom([]string{"/with%20space", "/a%2Fb", "/100%25", "/caf%C3%A9", "?tenant=a&x=1", "/with%20space?q=%3D", "/plus+sign", "/semi;colon", "//double"}).Draw(t, "urlshape")
+			}
 			if prof.Egress {
 				d.URL = rapid.SampledFrom(egressTargets).Draw(t, "url")
 				dup := false
